@@ -159,6 +159,19 @@ def handle : Handler := fun op args impl =>
           let k := fracOf f L
           if k < 2 || n < 2 then none else
           some (key (List.range L), enough ((Float.ofNat (k - 1)) / (2 * Float.ofNat L)) L)
+        | "rarefy" =>
+          -- par = "nb:c0,c1,…": row i is counted c_i times; a counted row is drawn first with probability c_i / total,
+          -- so every counted row must show up within K runs
+          match par.splitOn ":" with
+          | [nb, cs] => do
+            let nb ← nb.toNat?
+            let cs ← (cs.splitOn ",").mapM String.toNat?
+            let total := cs.foldl (· + ·) 0
+            if nb < 1 || cs.length != n || total == 0 || nb > total then none else
+            let counted := (List.range n).filter fun i => cs.getD i 0 > 0
+            let cmin := (counted.map fun i => cs.getD i 0).foldl Nat.min total
+            some (key counted, enough (Float.ofNat cmin / Float.ofNat total) counted.length)
+          | _ => none
         | "shuffle" =>
           if n > 4 then none else
           let ps := (List.range n).foldl perms [[]]
